@@ -838,27 +838,33 @@ class C01(core.Check):
                  "cols, rows, cursor) of the container widgets, one contract lemma per constructor; extracted-model "
                  "correspondence on random well-formed trees of real widgets (leaves enter the model as measured tables); "
                  "oracle = a complete validate_size on the real canvas")
-    level_text = ("Proved in Coq (render_contract_partial, by structural induction, arbitrary depth, every size >= 1, both focus "
-                  "values): for trees built from leaves that satisfy the contract themselves, AttrMap / LineBox delegation, "
-                  "BoxAdapter, Padding (given / pack / relative width), Filler (pack / given / relative height) Pile (given / "
-                  "pack / weight items), Frame (header / footer, any focus part), Overlay with a given or relative width "
-                  "(packed / given / relative height), Columns (given / pack / weight columns, box_columns, dividechars, min_width; "
-                  "box columns holding box widgets, the others flow widgets) and therefore LineBox, BOX sizing yields exactly the requested columns and rows and FLOW sizing the requested "
-                  "columns and exactly rows() rows, all content rows have the canvas width, the cursor is inside, rows() >= 1 and "
-                  "pack((c,)) agrees with rows() - unless the model reports its one explicit marker: a widget was handed a "
-                  "size with a component <= 0 (no room; such probes are not judged).  The cursor clause is proved outright since "
-                  "the canvas trimming operations drop a cursor they cut away (aa8a06a).  The Columns width arithmetic is C19's theorem column_widths_total_shape, transferred to "
-                  "this model by a proved equation (column_widths_eq).  PARTIAL: Overlay with width='pack', clip Padding, Columns with a "
-                  "'pack' column holding a FIXED-capable container or a non-box column holding a non-flow widget, and all FIXED sizing "
-                  "are modelled, extracted and compared but NOT proved; the full "
-                  "statement (render_contract_full) is refuted in Coq by a witness that replays on the implementation (fixed "
-                  "Padding: pack(()) != render(()), known finding).  The leaf contract is a hypothesis (leaves_ok), discharged only by the "
-                  "oracle on the real leaves (Text, Edit, Divider, SolidFill, Button, CheckBox, RadioButton, ProgressBar, BigText, "
-                  "BarGraph, SelectableIcon, ListBox, GridFlow, Scrollable/ScrollBar).  Everything else - all nine constructors, the "
-                  "three sizing modes, sizing() flags, rows(), pack(), render() sizes and cursors, which error is raised - is tied "
-                  "to the code by an exact extracted-model correspondence on ~1.2k random well-formed trees x ~8 probes per quick "
-                  "run, and the property itself is judged on the real canvases (cols/rows vs request/rows()/pack(), calc_width of "
-                  "every content row, row count, cursor) including the leaves the model only assumes.")
+    level_text = ("Proved in Coq by structural induction on the widget tree (arbitrary depth, every size >= 1, both focus values), "
+                  "for trees built from leaves that satisfy the contract themselves, AttrMap / LineBox delegation, BoxAdapter, "
+                  "Padding (given / pack / relative width), Filler (pack / given / relative height), Pile (given / pack / weight "
+                  "items), Frame (header / footer, any focus part), Overlay with a given or relative width (packed / given / "
+                  "relative height) and Columns (given / pack / weight columns, box_columns, dividechars, min_width; box columns "
+                  "holding box widgets, the others flow widgets) - hence LineBox: render_contract_partial: BOX sizing yields exactly "
+                  "the requested columns and rows and FLOW sizing the requested columns and exactly rows() rows, all content rows "
+                  "have the canvas width, the cursor is inside, rows() >= 1 and pack((c,)) agrees with rows(); "
+                  "fixed_contract_partial: FIXED sizing yields exactly the size pack(()) reports for the same constructors "
+                  "(fixed_fragment), with the exact exclusion of the known finding 'fixed Padding: pack(()) != render(())' (a "
+                  "min_width above the width, a relative width) and of relative Overlay widths above 100 percent; "
+                  "render_contract_partial_ext: the box/flow contract also for Padding(width='clip') and Overlay(width='pack') "
+                  "whose fixed child lies in those fragments.  The only "
+                  "alternative outcome is the model's explicit marker 'a widget was handed a size with a component <= 0' (no room; "
+                  "such probes are not judged).  The Columns width arithmetic is C19's theorem column_widths_total_shape, "
+                  "transferred to this model by a proved equation (column_widths_eq).  PARTIAL: Columns with a 'pack' column holding a "
+                  "FIXED-capable container or a non-box column holding a non-flow widget, clip Paddings / pack Overlays nested "
+                  "inside the fixed child of another one, fixed Overlay(width='pack') inside other fixed containers are modelled, extracted and compared but NOT proved; the full statement (render_contract_full) is refuted "
+                  "in Coq by a witness that replays on the implementation (fixed Padding: pack(()) != render(()), known finding).  "
+                  "The leaf contract is a hypothesis (leaves_ok, leaves_fx), discharged only by the oracle on the real leaves (Text, "
+                  "Edit, Divider, SolidFill, Button, CheckBox, RadioButton, ProgressBar, BigText, BarGraph, SelectableIcon, ListBox, "
+                  "GridFlow, Scrollable/ScrollBar).  Everything - all nine constructors, the three sizing modes, sizing() flags, "
+                  "rows(), pack(), render() sizes and cursors, which error is raised - is tied to the code by an exact extracted-model "
+                  "correspondence on ~1.5k well-formed trees x ~8 probes per quick run (random trees plus exhaustive small scopes "
+                  "for weighted Columns / Piles / Filler scrolling), and the property itself is judged on the real canvases "
+                  "(cols/rows vs request/rows()/pack(), calc_width of every content row, row count, cursor) including the leaves "
+                  "the model only assumes.")
     level_note = ("Trusted: Coq kernel; ExtrOcamlBasic extraction + OCaml driver; the hand-written model Model/WidgetDims.v (validated "
                   "by the correspondence, not proved against Python); the Python oracle and the spy that flags degenerate sizes "
                   "and trimmed-away cursors.  Hypotheses: WellFormed (wf_b: every child supports the sizing mode its container "
